@@ -25,7 +25,8 @@ Next == Verify \/ RootChecks \/ AssertionChecks
 Spec == Init /\ [][Next]_vars /\ WF_vars(Next)
 Done == pc = "done"
 AsObs(o) == [res |-> o.res, err |-> [cls |-> o.err.cls, type |-> o.err.type, names |-> <<o.err.name>>],
-             info |-> [res |-> o.res, err |-> [cls |-> o.err.cls, type |-> o.err.type, names |-> <<o.err.name>>]]]
+             info |-> [res |-> o.res, err |-> [cls |-> o.err.cls, type |-> o.err.type, names |-> <<o.err.name>>]],
+             rflag |-> (in.sigmode = "root" /\ ~cfg.skip), iflag |-> (in.sigmode = "root" /\ ~cfg.skip)]
 InvC03 == Done => C03_OK(cfg, in, AsObs(out))
 RunAgrees == Done => out = ModelOut(cfg, in)
 \* every assertion position is examined before acceptance
